@@ -6,6 +6,21 @@ ids = [json.loads(l)["id"] for l in open(os.path.join(HERE, "properties.jsonl"))
 
 # id -> (category, technique, level text, level note, design ref)
 CLAIMED = {
+ "C02": ("exploration",
+         "stateful property-based testing with a recording crypto-provider wrapper: every HPKE seal of every commit is compared with an independent tree model; removed parties are fed all later traffic",
+         "For every commit of generated removal-centred histories, the set of public keys each path secret is HPKE-encrypted to is compared with the copath resolutions of the NEW exported tree computed by the independent model (minus leaves added in the commit); Welcome seals must match the joiners' init keys; removed parties must fail to process every later message and keep their old epoch/authenticator. Secrecy itself is decided only through these observable consequences.",
+         "Attribution of seals is per provider instance (one per party). 'Never learns' = cannot process + nothing encrypted to a key it held.",
+         "DESIGN.md §4 C02"),
+ "C08": ("exploration",
+         "stateful property-based testing; oracle = independent tree-hash / parent-hash / placement model on exported bytes (calibrated on 98 IETF vectors) + the library's own observer validation",
+         "After every commit of generated histories every member's exported tree (committer, receiver, joiner, external joiner, reloaded) is re-validated from scratch by an independent implementation and by ExternalClient::observe_group; new leaves must sit at the leftmost blanks.",
+         "Leaf signatures are checked by the library's observer validation, not by the independent model. Group size <= 12/24.",
+         "DESIGN.md §4 C08"),
+ "C09": ("exploration",
+         "stateful property-based testing; oracle = HPKE seal-to-node/open-with-stored-key over the hook-exposed private key list and the independently parsed exported tree",
+         "After every commit of generated histories, every member's stored private keys are checked against the public keys at the corresponding nodes of its direct path (reference tree math), no key may exist for a blank node, committer path keys must be fresh, replaced leaf keys must be gone.",
+         "Uses hook Group::verif_private_tree (read-only). Completeness of the key list (a missing entitled key) is decided indirectly by C01's decrypt checks.",
+         "DESIGN.md §4 C09"),
  "C01": ("exploration",
          "stateful property-based testing: generated group histories (proptest op sequences, 16 shards) with N-way agreement and cross-decrypt oracles",
          "Random group histories over every proposal kind (by reference and by value), commits with/without path, external commits (new, rejoin, resync), identity changes, provider mixes, cipher suites and commit/encryption options; after every accepted commit all members are compared on context, roster, exported tree, authenticator, exported secrets, and every member's ciphertext is decrypted by every other member. Sampled histories, not exhaustive.",
